@@ -58,6 +58,8 @@ func (ml *MemLogger) GetCore() zapcore.Core {
 func (ml *MemLogger) GetLogs() []*observer.LoggedEntry {
 	var index = BufferSize - 1
 	mc := ml.core
+	mc.mu.RLock()
+	defer mc.mu.RUnlock()
 	logs := make([]*observer.LoggedEntry, BufferSize)
 	mc.r.Do(func(val interface{}) {
 		if val != nil {
